@@ -154,23 +154,54 @@ def r_C13d_C34f_C09d(root):
                 okf = False
                 out.append(Finding("C34", "C34.f", M, "parse_tree_to_objgraph.process_node", " ".join(ast.unparse(g).split())[:100], "an object is entered into the span map only if it is truthy: objects of user classes defining __len__/__bool__ that are currently falsy have no span", witness="classes=[Block] with __len__, an empty block"))
         ob("C34", "C34.f", M, "parse_tree_to_objgraph.process_node", "span registration guarded by None-test", okf)
-    # ---- C09.d
+    # ---- C09.d / C28.c by evaluation: the failure branch after the resolution loop is interpreted over two sample models with
+    #      delayed references of their own (m1: a@7, b@9; m2: c@3); every model has its own parser and file name
     from sa.rules import resolver as RS
-    drv, blk, raises = RS.unresolved_raises(root); fi = sem.info(drv)
-    loops = [n for n in ast.walk(blk) if isinstance(n, ast.For)] if blk is not None else []
-    outer = next((l for l in loops if isinstance(l.iter, ast.Name) and l.iter.id == "models"), None)
-    inst += 1; okd = True
-    if outer is None: raise AnalysisError("loop over the models in the unresolvable-reference report not found")
-    mv = {x.id for x in ast.walk(outer.target) if isinstance(x, ast.Name)}
-    inner = [l for l in ast.walk(outer) if isinstance(l, ast.For) and l is not outer]
-    if not inner: raise AnalysisError("loop over the delayed references not found")
-    for l in inner:
-        src = fi.expand(l.iter, at=l.iter)
-        if not ({x.id for x in ast.walk(src) if isinstance(x, ast.Name)} & mv):
-            okd = False
-            for pr, cl in (("C09", "C09.d"),):
-                out.append(Finding(pr, cl, M, "parse_tree_to_objgraph", "for ... in " + ast.unparse(l.iter), "the report of unresolvable references iterates %s for every model instead of each model's own delayed references: with several files it names the last model's references once per model and omits the others" % ast.unparse(l.iter), witness="main file importing another file, both with references that never resolve"))
-    ob("C09", "C09.d", M, "parse_tree_to_objgraph", "each model's own delayed list is reported", okd)
+    from sa import pyeval as _pe
+    drv, blk, raises = RS.unresolved_raises(root)
+    def mkmodel(k, refs):
+        parser = {".pos_to_linecol": _pe.PyFn(lambda pos, k=k: (k * 100 + pos, pos + 1)), ".kind": "parser", ".file_name": "file%d" % k}
+        delayed = [({".kind": "obj"}, {".name": "attr"}, {".obj_name": n_, ".position": p_, ".position_end": p_ + 1, ".cls": {".__name__": "Cls" + n_}, ".kind": "crossref"}) for n_, p_ in refs]
+        res = {".parser": parser, ".delayed_crossrefs": delayed, ".kind": "resolver"}
+        return {".kind": "model", "._tx_reference_resolver": res, "._tx_filename": "file%d" % k, "._tx_parser": parser}
+    m1 = mkmodel(1, [("refA", 7), ("refB", 9)]); m2 = mkmodel(2, [("refC", 3)]); m3 = mkmodel(3, [])
+    caught = []
+    def _err(message=None, line=None, col=None, err_type=None, expected_obj_cls=None, filename=None, **kw):
+        v = {".message": message, ".line": line, ".col": col, ".filename": filename, ".kind": "error"}; caught.append(v); return v
+    env = {"models": [m1, m2, m3], "model": m1, "parser": m1["._tx_parser"], "TextXSemanticError": _pe.PyFn(_err), "__module__": load(root, M)}
+    for nm in {x.id for x in ast.walk(blk.test) if isinstance(x, ast.Name)}: env[nm] = 3
+    # locals left over from the resolution loop, as its last round leaves them (the last model of the list was handled last)
+    _d, wl_, rc_, uc_, ml_ = RS.driver(root)
+    for st_ in ast.walk(wl_):
+        if isinstance(st_, ast.For) and isinstance(st_.target, ast.Name) and ast.unparse(st_.iter) == "models": env.setdefault(st_.target.id, m3)
+        if isinstance(st_, ast.Assign) and isinstance(st_.targets[0], (ast.Tuple, ast.List)) and len(st_.targets[0].elts) == 2 and all(isinstance(x, ast.Name) for x in st_.targets[0].elts) and any(callee_name(c) == "resolve_one_step" for c in calls(st_)):
+            env.setdefault(st_.targets[0].elts[0].id, 0); env.setdefault(st_.targets[0].elts[1].id, m3["._tx_reference_resolver"][".delayed_crossrefs"])
+    env.setdefault(rc_, 0)
+    try: _pe.run_block([blk], env); res_ = ("ret", None)
+    except _pe.Raised as r_: res_ = ("raise", r_)
+    except _pe.Unsupported as u_:
+        stored = {x.id for x in ast.walk(blk) if isinstance(x, ast.Name) and isinstance(x.ctx, ast.Store)}
+        nm_ = str(u_).split()[1] if str(u_).startswith("name ") else None
+        if nm_ in stored: res_ = ("raise", _pe.Raised("UnboundLocalError(%s)" % nm_))       # a local of the branch read before any path assigned it
+        else: raise AnalysisError("failure branch after the resolution loop: outside the evaluated subset: %s" % u_)
+    inst += 1
+    okr_ = res_[0] == "raise" and res_[1].cls == "TextXSemanticError" and isinstance(res_[1].value, dict)
+    ob("C09", "C09.c", M, "parse_tree_to_objgraph", "references left over after the loop end in a TextXSemanticError", okr_)
+    if not okr_: out.append(Finding("C09", "C09.c", M, "parse_tree_to_objgraph", "if unresolved > 0", "with three references left unresolved the failure branch %s instead of raising a TextXSemanticError" % ("falls through" if res_[0] == "ret" else "raises %s" % res_[1].cls)))
+    else:
+        e_ = res_[1].value; msg = str(e_[".message"])
+        want = {"refA": (107, 8), "refB": (109, 10), "refC": (203, 4)}
+        inst += 1
+        okd = all(msg.count('"%s"' % n_) == 1 and str(lc) in msg for n_, lc in want.items())
+        ob("C09", "C09.d", M, "parse_tree_to_objgraph", "each model's own delayed references are reported once, located by the model's own parser", okd)
+        if not okd:
+            out.append(Finding("C09", "C09.d", M, "parse_tree_to_objgraph", "Unresolvable cross references report", "for three models with the unresolved references refA@7, refB@9 (first file), refC@3 (second file) and none in the third the report reads %r: every unresolved reference of every model must be named once, with the line/column its own model's parser gives (%s)" % (msg[:200], want), witness="two files, each with an unresolvable reference"))
+        inst += 1
+        owner = [n_ for n_, lc in want.items() if (e_[".line"], e_[".col"]) == lc]
+        okl = bool(owner) and e_[".filename"] == ("file2" if owner[0] == "refC" else "file1")
+        for pr in ("C28",): ob(pr, "C28.c", M, "parse_tree_to_objgraph", "line, col and filename of the error belong to one and the same reference", okl)
+        if not okl:
+            out.append(Finding("C28", "C28.c", M, "parse_tree_to_objgraph", "raise TextXSemanticError(..., line, col, filename)", "the error carries line %s, col %s and file %r: %s" % (e_[".line"], e_[".col"], e_[".filename"], "line and column are those of reference %s, which is in the other file" % owner[0] if owner else "line/column are not the position of any of the unresolved references"), witness="main file and imported file both with an unresolvable reference"))
     return inst, out
 def r_C13e(root):
     """C13.e  the test that decides whether the processor walk descends into an object ("is its class a meta-class of this
